@@ -55,33 +55,7 @@ def run(ctx):
     rep.assumptions += ["HAVE_CODEMEM_MMAP configuration of this build", "realloc/malloc failure (OOM) exits are reported as information only"]
     tu = db.tu("orccodemem")
 
-    # ---- D1 / D2 : dual map ------------------------------------------------
-    dm = db.func("orc_code_region_allocate_codemem_dual_map", "orccodemem")
-    rep.saw(dm)
-    acq = []
-    for c in dm.calls():
-        if c.name in ("malloc", "mkstemp", "mmap"):
-            var, st = assigned_var(c)
-            if var:
-                acq.append((c, var))
-    if len(acq) < 4:
-        raise AnalysisBroken("dual_map: expected malloc+mkstemp+2 mmap acquisitions, found %d" % len(acq))
-    for c, var in acq:
-        sent = SENT[c.name]
-        if c.name == "malloc":
-            rel = lambda e, v=var: call_with_arg(e, ("free",), v)
-            ok_exit = None
-        elif c.name == "mkstemp":
-            rel = lambda e, v=var: call_with_arg(e, ("close",), v)
-            ok_exit = None
-        else:
-            rel = lambda e, v=var: call_with_arg(e, ("munmap",), v)
-            # mapping stays owned by the region on the success exit
-            ok_exit = lambda r: r.c and strip_casts(r.c[0]).v not in (None, 0)
-        paths = live_exit_paths(dm, c, var, sent, rel, ok_exit)
-        rep.check(not paths, "D1-R-PAIR", where(dm), "%s->%s" % (c.name, var),
-                  "released on every exit where it is live (%s)" % ("free" if c.name == "malloc" else "close" if c.name == "mkstemp" else "munmap or kept by region on success"),
-                  "%s acquired by %s() is still live at an exit: %s" % (var, c.name, describe_path(dm, paths[0]) if paths else ""), line=c.line)
+    dual_map_pairing(db, rep)
     # sentinels
     for f in tu.main_functions():
         for c in f.calls():
@@ -297,11 +271,43 @@ def run(ctx):
     d7_error_latch(db, rep)
     snapshot_slots(db, rep, "D5c-SNAPSHOT-SLOTS")
     d9_acc_index(db, rep)
+    d10_temp_reg_distinct(db, rep)
     # D8: the executor a generated wrapper hands to a detached code object carries n and (for 2-D) m: emulation, the fallback
     # of every wrapper, reads them from there (shared with C07 D1)
     import importlib as _il
     _il.import_module("rules.c07").wrapper_executor_fill(db, rep, "D8-WRAPPER-FILL")
 
+
+
+def dual_map_pairing(db, rep, rule="D1-R-PAIR"):
+    """descriptor, file name and first mapping of the dual-map allocator are released on every exit where they are live
+    (shared with C16: these are resources of the object life cycle as well)"""
+    dm = db.func("orc_code_region_allocate_codemem_dual_map", "orccodemem")
+    rep.saw(dm)
+    acq = []
+    for c in dm.calls():
+        if c.name in ("malloc", "mkstemp", "mmap"):
+            var, st = assigned_var(c)
+            if var:
+                acq.append((c, var))
+    if len(acq) < 4:
+        raise AnalysisBroken("dual_map: expected malloc+mkstemp+2 mmap acquisitions, found %d" % len(acq))
+    for c, var in acq:
+        sent = SENT[c.name]
+        if c.name == "malloc":
+            rel = lambda e, v=var: call_with_arg(e, ("free",), v)
+            ok_exit = None
+        elif c.name == "mkstemp":
+            rel = lambda e, v=var: call_with_arg(e, ("close",), v)
+            ok_exit = None
+        else:
+            rel = lambda e, v=var: call_with_arg(e, ("munmap",), v)
+            # mapping stays owned by the region on the success exit
+            ok_exit = lambda r: r.c and strip_casts(r.c[0]).v not in (None, 0)
+        paths = live_exit_paths(dm, c, var, sent, rel, ok_exit)
+        rep.check(not paths, rule, where(dm), "%s->%s" % (c.name, var),
+                  "released on every exit where it is live (%s)" % ("free" if c.name == "malloc" else "close" if c.name == "mkstemp" else "munmap or kept by region on success"),
+                  "%s acquired by %s() is still live at an exit: %s" % (var, c.name, describe_path(dm, paths[0]) if paths else ""), line=c.line)
 
 
 def d7_error_latch(db, rep):
@@ -393,3 +399,38 @@ def d9_acc_index(db, rep):
                           "is outside the %d-entry array" % (f.name, unparse(x.c[1])[:50], a1, db.field("OrcExecutor", "accumulators")["alen"]), line=x.line)
     if n < 3:
         raise AnalysisBroken("only %d run-time subscripts of ex->accumulators[] found" % n)
+
+
+def d10_temp_reg_distinct(db, rep):
+    """D10: "register exhaustion" must be REPORTED (compile error -> fallback), not papered over.  orc_compiler_get_temp_reg
+    hands out scratch registers for the rule of the current instruction; registers already handed out for that instruction
+    are excluded only through the cursor compiler->min_temp_reg (they are not entered in alloc_regs[]).  Every path that
+    returns a register r must therefore have moved the cursor past r (min_temp_reg = r + k, k >= 1) or marked alloc_regs[r];
+    a return without either can hand the same register out twice, the rule computes with one register where it needs two,
+    and the compile still reports success."""
+    from flow import linear
+    tu = db.tu("orccompiler")
+    f = tu.fn.get("orc_compiler_get_temp_reg")
+    if f is None:
+        raise AnalysisBroken("orc_compiler_get_temp_reg not found")
+    rep.saw(f)
+    rets = [r for r in f.walk() if r.k == "ReturnStmt" and r.c and r.c[0] is not None and strip_casts(r.c[0]).v is None]
+    if not rets:
+        raise AnalysisBroken("orc_compiler_get_temp_reg returns no register variable")
+    for r in rets:
+        rv = access_path(strip_casts(r.c[0]))
+        ok = False
+        for x in f.walk():
+            if x.k == "BinaryOperator" and x.op == "=" and (access_path(x.c[0]) or "").endswith("->min_temp_reg"):
+                l = linear(x.c[1])
+                if l and l[0] == rv and l[1] >= 1 and f.dominates(x, r):
+                    ok = True
+            if x.k == "BinaryOperator" and x.op == "=" and strip_casts(x.c[0]) is not None and strip_casts(x.c[0]).k == "ArraySubscriptExpr" \
+                    and (access_path(strip_casts(x.c[0]).c[0]) or "").endswith("->alloc_regs") and access_path(strip_casts(strip_casts(x.c[0]).c[1])) == rv \
+                    and strip_casts(x.c[1]).v not in (0, None) and f.dominates(x, r):
+                ok = True
+        rep.check(ok, "D10-TEMP-REG-DISTINCT", where(f), "return %s@%s" % (rv, r.line),
+                  "the register returned has been excluded from later requests (cursor moved past it)",
+                  "orc_compiler_get_temp_reg can return register `%s` (line %s) without moving compiler->min_temp_reg past it or marking it allocated: the "
+                  "next request within the same instruction can return the same register - with one register free a rule that needs two temporaries gets "
+                  "the same one twice, the compile succeeds and the code computes garbage instead of falling back" % (rv, r.line), line=r.line)
